@@ -553,6 +553,51 @@ impl MqttShared {
         }
     }
 
+    /// Wait for a free slot in the send window.
+    ///
+    /// The slot can be taken by another sender between the wake-up and the moment
+    /// the woken task runs, so the window is checked again after every wake-up. If
+    /// the future is dropped while it waits, the next waiter is woken instead so
+    /// that a wake-up is never lost.
+    pub(super) async fn wait_ready(
+        &self,
+        mut rx: pool::Receiver<()>,
+    ) -> Result<(), SendPacketError> {
+        struct PassOn<'a>(&'a MqttShared, bool);
+
+        impl Drop for PassOn<'_> {
+            fn drop(&mut self) {
+                if self.1 {
+                    self.0.wake_waiter();
+                }
+            }
+        }
+
+        let mut guard = PassOn(self, true);
+        loop {
+            if rx.await.is_err() {
+                guard.1 = false;
+                return Err(SendPacketError::Disconnected);
+            }
+            if let Some(next) = self.wait_readiness() {
+                rx = next;
+            } else {
+                guard.1 = false;
+                return Ok(());
+            }
+        }
+    }
+
+    fn wake_waiter(&self) {
+        if let Ok(mut queues) = self.queues.try_borrow_mut() {
+            while let Some(tx) = queues.waiters.pop_front() {
+                if tx.send(()).is_ok() {
+                    break;
+                }
+            }
+        }
+    }
+
     pub(super) fn wait_readiness(&self) -> Option<pool::Receiver<()>> {
         let mut queues = self.queues.borrow_mut();
 
